@@ -27,7 +27,7 @@ go test -vet=off -count=1 ./... > "$wt/.suite.log" 2>&1 || suite=FAIL
 mkdir -p "$wt/$dest"
 cp "$d/$file" "$wt/$dest/"
 with=pass
-(eval "timeout 180 $run") > "$wt/.demo_with.log" 2>&1 || with=FAIL
+(timeout 180 sh -c "$run") > "$wt/.demo_with.log" 2>&1 || with=FAIL
 # checks against the patched tree (demo file removed first: it is not part of the change)
 rm -f "$wt/$dest/$file"
 mkdir -p "$wt/.verif"; cp "$here/known_findings.json" "$wt/.verif/"
@@ -41,6 +41,6 @@ done
 git checkout -q -- .
 cp "$d/$file" "$wt/$dest/"
 without=pass
-(eval "timeout 180 $run") > "$wt/.demo_without.log" 2>&1 || without=FAIL
+(timeout 180 sh -c "$run") > "$wt/.demo_without.log" 2>&1 || without=FAIL
 [ "$suite" != pass ] && tail -5 "$wt/.suite.log"
 echo "RESULT $(basename $(dirname $d))/$(basename $d) suite=$suite demo_with_change=$with demo_without_change=$without checks:$verdicts"
